@@ -174,21 +174,24 @@ ConfInt(d, bits, what) ==
          IF NumIntSyntax(d.u) THEN IF IntLitInRange(d.u, bits) THEN COk ELSE CBad("default-" \o what \o "-out-of-range")
          ELSE IF NumFracNonZero(d.u) /\ ~NumHasExp(d.u) THEN CBad("default-" \o what \o "-not-integer")
          ELSE CGrey("default-integer-in-float-syntax")
-    [] OTHER -> CBad("default-" \o what \o "-not-number")
+    [] OTHER -> CBad("default-" \o what \o "-is-" \o d.j)
 
 ConfPrim(d, p) ==
-  CASE p = "null" -> IF d.j = "null" THEN COk ELSE CBad("default-null-not-null")
-    [] p = "boolean" -> IF d.j = "bool" THEN COk ELSE CBad("default-boolean-not-boolean")
+  CASE p = "null" -> IF d.j = "null" THEN COk ELSE CBad("default-null-is-" \o d.j)
+    [] p = "boolean" -> IF d.j = "bool" THEN COk ELSE CBad("default-boolean-is-" \o d.j)
     [] p = "int" -> ConfInt(d, 32, "int")
     [] p = "long" -> ConfInt(d, 64, "long")
     [] p \in {"float", "double"} ->
          IF d.j \in {"int", "num"} THEN COk
          ELSE IF d.j = "str" /\ d.s \in {"NaN", "Infinity", "-Infinity", "INF", "-INF"} THEN CGrey("default-float-special-as-string")
-         ELSE CBad("default-" \o p \o "-not-number")
-    [] p = "string" -> IF d.j = "str" THEN COk ELSE CBad("default-string-not-string")
-    [] p = "bytes" -> IF d.j # "str" THEN CBad("default-bytes-not-string")
+         ELSE CBad("default-" \o p \o "-is-" \o d.j)
+    [] p = "string" -> IF d.j = "str" THEN COk ELSE CBad("default-string-is-" \o d.j)
+    [] p = "bytes" -> IF d.j # "str" THEN CBad("default-bytes-is-" \o d.j)
                       ELSE IF AllCodePointsLE255(d.u) THEN COk ELSE CBad("default-bytes-codepoint-above-255")
     [] OTHER -> COk
+
+UnderLogical(ty, c) == IF Has(ty, "logicalType") /\ Get(ty, "logicalType").j = "str" /\ ~CIsBad(c)
+                       THEN CJoin(c, CGrey("default-under-logical-type")) ELSE c
 
 RECURSIVE Conf(_, _, _, _), ConfUnion(_, _, _, _), ConfRecord(_, _, _, _)
 Conf(d, ty, ns, st) ==
@@ -201,32 +204,35 @@ Conf(d, ty, ns, st) ==
     [] ty.j = "obj" ->
          IF ~Has(ty, "type") THEN COk
          ELSE LET tt == Get(ty, "type") IN
-           CASE tt.j = "str" ->
+           \* value domains of logical types (uuid syntax, decimal precision ...) are not part of B.3: a default
+           \* that conforms to the underlying type is judged "either" when a logicalType attribute is present
+           UnderLogical(ty,
+            CASE tt.j = "str" ->
                   CASE tt.s = "record" -> ConfRecord(d, ty, NameParts(ty, ns).ns, st)
                     [] tt.s = "enum" ->
-                         IF d.j # "str" THEN CBad("default-enum-not-string")
+                         IF d.j # "str" THEN CBad("default-enum-is-" \o d.j)
                          ELSE IF Has(ty, "symbols") /\ Get(ty, "symbols").j = "arr"
                                  /\ \E i \in 1..Len(Get(ty, "symbols").items) :
                                        LET y == Get(ty, "symbols").items[i] IN y.j = "str" /\ y.u = d.u
                               THEN COk ELSE CBad("default-enum-not-symbol")
                     [] tt.s = "fixed" ->
-                         IF d.j # "str" THEN CBad("default-fixed-not-string")
+                         IF d.j # "str" THEN CBad("default-fixed-is-" \o d.j)
                          ELSE IF ~AllCodePointsLE255(d.u) THEN CBad("default-fixed-codepoint-above-255")
                          ELSE IF ~(Has(ty, "size") /\ Get(ty, "size").j = "int") THEN CGrey("default-fixed-of-unusual-size")
                          ELSE IF CodePointCount(d.u) = Get(ty, "size").n THEN COk ELSE CBad("default-fixed-wrong-length")
                     [] tt.s = "array" ->
-                         IF d.j # "arr" THEN CBad("default-array-not-array")
+                         IF d.j # "arr" THEN CBad("default-array-is-" \o d.j)
                          ELSE IF ~Has(ty, "items") THEN COk
                          ELSE LET cs == {Conf(d.items[i], Get(ty, "items"), ns, st) : i \in 1..Len(d.items)}
                               IN CR(UNION {c.bad : c \in cs}, UNION {c.grey : c \in cs})
                     [] tt.s = "map" ->
-                         IF d.j # "obj" THEN CBad("default-map-not-object")
+                         IF d.j # "obj" THEN CBad("default-map-is-" \o d.j)
                          ELSE IF ~Has(ty, "values") THEN COk
                          ELSE LET cs == {Conf(d.kv[i][2], Get(ty, "values"), ns, st) : i \in 1..Len(d.kv)}
                               IN CR(UNION {c.bad : c \in cs}, UNION {c.grey : c \in cs})
                     [] OTHER -> Conf(d, tt, ns, st)       \* {"type":"int", ...} / {"type":"Name"}: as the bare name
              [] tt.j \in {"obj", "arr"} -> Conf(d, tt, ns, st)
-             [] OTHER -> COk
+             [] OTHER -> COk)
     [] OTHER -> COk
 
 (* union-typed field: first branch (<= 1.11) or first matching branch (1.12): grey where they differ *)
@@ -239,7 +245,7 @@ ConfUnion(d, items, ns, st) ==
        ELSE CBad("default-matches-no-union-branch")
 
 ConfRecord(d, rec, rns, st) ==
-  IF d.j # "obj" THEN CBad("default-record-not-object")
+  IF d.j # "obj" THEN CBad("default-record-is-" \o d.j)
   ELSE IF ~(Has(rec, "fields") /\ Get(rec, "fields").j = "arr") THEN COk
   ELSE LET fs == Get(rec, "fields").items
            good == {i \in 1..Len(fs) : fs[i].j = "obj" /\ Has(fs[i], "name") /\ Get(fs[i], "name").j = "str" /\ Has(fs[i], "type")}
